@@ -27,9 +27,11 @@ Ltac setters :=
          set_state, set_params, set_param, set_ignoring, set_utf8 in *;
   cbn [pstate intermediates intermediate_idx pparams pparam osc_raw osc_params osc_num_params ignoring utf8_parser] in *.
 
+(* two hypotheses about the SAME term (syntactically: a non-linear pattern `?t .. ?t` would be matched up to conversion,
+   which unfolds e.g. `osc_dispatch` against every other left-hand side) *)
 Ltac unify_eqs :=
   repeat match goal with
-         | H1 : ?t = _, H2 : ?t = _ |- _ => rewrite H1 in H2; inversion H2; subst; clear H2
+         | H1 : ?t = _, H2 : ?u = _ |- _ => constr_eq t u; rewrite H1 in H2; inversion H2; subst; clear H2
          end.
 Ltac norm := idtac.
 Ltac des := repeat (des1; setters; norm; cbn [acc fst snd] in *; try congruence).
@@ -319,11 +321,101 @@ Ltac norm ::=
           ?g_osc_dispatch_eq, ?g_params_groups_eq in *;
   unfold intermediates_of, g_params, osc_dispatch_acc in *; setters.
 
+(* the leaf of a case analysis, aware of the arithmetic of the tests that were destructed on the way: the source may
+   spell "the first parameter" as `param_idx == 0`, as the `None` of `param_idx.checked_sub(1)`, as `param_idx < 1`, ..;
+   after `des` every such test is a boolean hypothesis, `bool_props` turns them into propositions over N and the
+   branches that no input reaches are closed by `lia`, the others by `congruence` as before *)
+Ltac bool_props :=
+  repeat match goal with
+  | H : negb _ = true |- _ => apply negb_true_iff in H
+  | H : negb _ = false |- _ => apply negb_false_iff in H
+  | H : (_ =? _) = true |- _ => apply N.eqb_eq in H
+  | H : (_ =? _) = false |- _ => apply N.eqb_neq in H
+  | H : (_ <=? _) = true |- _ => apply N.leb_le in H
+  | H : (_ <=? _) = false |- _ => apply N.leb_gt in H
+  | H : (_ <? _) = true |- _ => apply N.ltb_lt in H
+  | H : (_ <? _) = false |- _ => apply N.ltb_ge in H
+  end.
+(* a variable the tests force to be 0 (`n < 1`, `n <= 0`, `!(n >= 1)`, ..) is replaced by 0, so that `params[0]` and
+   `params[n]`, `1` and `n + 1` are the same terms *)
+Ltac pin_zero :=
+  repeat match goal with
+  | x : N |- _ => let H := fresh in assert (H : x = 0) by lia; subst x
+  end.
+(* facts about the constants of the source that `lia` may use: only "there is at least one OSC parameter slot" (a test
+   `n < 1` before the test `n == MAX_OSC_PARAMS` is the same as after it); the VALUE of the constant stays abstract *)
+Lemma MAX_OSC_PARAMS_pos : 0 < MAX_OSC_PARAMS.
+Proof. reflexivity. Qed.
+Ltac arith_facts := pose proof MAX_OSC_PARAMS_pos.
+(* "where the previous parameter ended" read through a slice (`self.osc_params[..n].last()`) instead of an index
+   (`self.osc_params[n - 1]`): the same element, the same panics (`n` beyond the array: the slice panics there, the
+   write to `osc_params[n]` here) *)
+Lemma aset_some_lt {A} (l l' : list A) n v : aset l n v = Some l' -> n < N.of_nat (length l).
+Proof.
+  unfold aset. intros E0. assert (Hlt : (N.to_nat n < length l)%nat); [|lia].
+  generalize dependent l'. generalize (N.to_nat n) as i. induction l as [|h t IH]; intros i l' E0; cbn [aset_nat] in E0.
+  - destruct i; discriminate.
+  - destruct i as [|j]; cbn [length]; [lia|]. destruct (aset_nat t j v) eqn:E; [|discriminate]. specialize (IH _ _ E). lia.
+Qed.
+
+Lemma slice0_none {A} (l : list A) n : slice l 0 n = None -> N.of_nat (length l) < n.
+Proof.
+  unfold slice. destruct (N.leb_spec 0 n) as [_|Hn]; [|lia].
+  destruct (N.leb_spec n (N.of_nat (length l))) as [Hl|Hl]; cbn [andb]; [discriminate|auto].
+Qed.
+
+Lemma nth_error_firstn_lt {A} (l : list A) : forall m i, (i < m)%nat -> nth_error (firstn m l) i = nth_error l i.
+Proof.
+  induction l as [|h t IH]; intros m i Hi; [rewrite firstn_nil; reflexivity|].
+  destruct m as [|m]; [lia|]. destruct i as [|i]; cbn [firstn nth_error]; [reflexivity|]. apply IH. lia.
+Qed.
+
+Lemma slice0_last_pos {A} (l sl : list A) n :
+  slice l 0 n = Some sl -> 0 < n -> nth_error sl (Nat.pred (length sl)) = aget l (n - 1).
+Proof.
+  unfold slice, aget. destruct (N.leb_spec 0 n) as [_|Hn0]; [|lia].
+  destruct (N.leb_spec n (N.of_nat (length l))) as [Hl|Hl]; cbn [andb]; [|discriminate].
+  intros E0 Hn. injection E0 as <-. rewrite N.sub_0_r. cbn [N.to_nat skipn].
+  rewrite firstn_length_le by lia. replace (Nat.pred (N.to_nat n)) with (N.to_nat (n - 1)) by lia.
+  rewrite nth_error_firstn_lt by lia. reflexivity.
+Qed.
+
+Lemma slice0_last_zero {A} (l sl : list A) n :
+  slice l 0 n = Some sl -> n = 0 -> nth_error sl (Nat.pred (length sl)) = None.
+Proof.
+  intros E0 ->. unfold slice in E0. change (0 <=? 0) with true in E0. cbn [andb] in E0.
+  destruct (0 <=? N.of_nat (length l)); [|discriminate]. injection E0 as <-. reflexivity.
+Qed.
+
+Lemma aget_none_ge {A} (l : list A) i : aget l i = None -> N.of_nat (length l) <= i.
+Proof. unfold aget. intros E0. apply nth_error_None in E0. lia. Qed.
+
+Ltac list_facts :=
+  repeat match goal with
+  | H : slice ?l 0 ?n = Some ?sl, H2 : context [nth_error ?sl (Nat.pred (length ?sl))] |- _ =>
+      first [ rewrite (slice0_last_pos l sl n H ltac:(lia)) in H2
+            | rewrite (slice0_last_zero l sl n H ltac:(lia)) in H2 ]
+  | H : slice _ 0 _ = None |- _ => apply slice0_none in H
+  | H : aget _ _ = None |- _ => apply aget_none_ge in H
+  | H : aset ?l ?n _ = Some _ |- _ =>
+      lazymatch goal with
+      | _ : n < N.of_nat (length l) |- _ => fail
+      | _ => pose proof (aset_some_lt _ _ _ _ H)
+      end
+  end.
+
+Ltac arith_leaf :=
+  first [ congruence | reflexivity
+        | bool_props; arith_facts; list_facts;
+          first [ exfalso; lia | congruence
+                | pin_zero; rewrite ?N.add_0_l in *; unify_eqs; cbn [fst snd] in *; first [ reflexivity | congruence ] ] ].
+
 Lemma osc_end_eq c p perf b :
   g_perform_action c p perf AOscEnd b = acc perf (perform_action c p AOscEnd b).
 Proof.
-  unfold g_perform_action, perform_action, len. destruct p. setters.
+  unfold g_perform_action, perform_action, len, csub. destruct p. setters. cbv zeta.
   des; setters; try congruence; try reflexivity.
+  all: arith_leaf.
 Qed.
 
 Lemma g_perform_action_eq c p perf a b :
@@ -332,12 +424,13 @@ Proof.
   destruct a; try apply osc_end_eq;
     unfold g_perform_action, g_params;
     rewrite ?g_params_is_full_eq, ?g_params_push_eq, ?g_params_extend_eq, ?g_params_clear_eq, ?g_intermediates_eq, ?g_process_utf8_eq;
-    unfold perform_action, finish_params, osc_full, raw_full, cfg_core, len, intermediates_of;
+    unfold perform_action, finish_params, osc_full, raw_full, cfg_core, len, intermediates_of, csub;
     destruct p; setters; cbn [acc]; rewrite ?app_nil_r; try reflexivity.
   all: des; setters; cbn [acc]; rewrite ?app_nil_r; try congruence; try reflexivity.
   all: unify_eqs; try congruence; try reflexivity.
-  (* ArrayVec::push on a full buffer (a panic) is excluded by the guard at the head of the arm *)
-  all: cbn [andb] in *; congruence.
+  (* ArrayVec::push on a full buffer (a panic) is excluded by the guard at the head of the arm; the tests on
+     `osc_num_params` (whatever their spelling) by their arithmetic *)
+  all: cbn [andb negb] in *; arith_leaf.
 Qed.
 
 Lemma acc_acc {A} perf e1 (r : option (A * list event)) :
